@@ -13,7 +13,8 @@ From FT Require Proofs.EditSwap.
 From FT Require Proofs.EditNodeBasic Proofs.EditBook Proofs.EditUDN Proofs.EditUAN Proofs.EditWFEdge.
 From FT Require Gen.History_gen Proofs.HistoryGen Props.C02.
 From FT Require Proofs.EditBook Proofs.EditWFNode.
-From FT Require Proofs.EditSessions Proofs.EditWFPaint.
+From FT Require Proofs.EditSessions Proofs.EditSessionsFull Proofs.EditSessionsAll Proofs.EditWFPaint Proofs.EditWFPaintRollback.
+From FT Require Gen.UserActions_gen Proofs.UserActionsTie.
 Import ListNotations.
 Open Scope Z_scope.
 
@@ -146,35 +147,61 @@ Theorem C03_run_node_calls : forall ops st,
   WF (run st ops).
 Proof. exact EditWFNode.run_node_WF. Qed.
 
-(* ---- sessions with undo / redo (Proofs/EditSessions.v): from a well-formed state with an empty history,
-        EVERY state reached along ANY sequence of edge / node calls, undos and redos (accepted or refused,
-        any length) satisfies the complete invariant WF.  Hypotheses: reg_ok (every active managed feature
-        is registered - true by construction of Tracks.enable_features, C10_registry), rp_disjoint, and the
-        documented per-call preconditions at the moment each call is made (pre_along: op_pre for
-        UserAddNode as in C03_run_node_calls; without a segmentation a deleted / added node has its
-        position attributes). ---- *)
+(* ---- sessions over the WHOLE public interface (Proofs/EditSessions.v, EditSessionsFull.v, EditSessionsAll.v):
+        from a well-formed state with an empty history, EVERY state reached along ANY sequence - of any
+        length - of calls of the edit machine (add / delete edge, forced or not, swap, add / delete node,
+        attribute update, paint / erase stroke, undo, redo, queries, fresh ids), accepted or refused,
+        satisfies the complete invariant WF.  No restriction on which calls occur.  Hypotheses: three
+        configuration facts that no call changes (reg_ok: every active managed feature is registered;
+        rp_decl: every active regionprops key is one the annotator declares; rp_disjoint: time / track id /
+        lineage id are not regionprops keys - all true by construction of Tracks, C10_registry) and the
+        documented per-call preconditions at the moment each call is made (pre_along_all: for UserAddNode
+        integer time / track id, no caller-supplied lineage id, and with a segmentation a non-zero id and
+        background pixels of its own frame; without a segmentation a deleted / added node has its
+        position attributes; strokes, edge calls, attribute updates, undo, redo have none). ---- *)
 Theorem C03_sessions : forall st0 ops,
-  forallb EditSessions.session_fragment ops = true ->
-  WF st0 -> EditSessions.reg_ok st0 -> EditBook.rp_disjoint st0 ->
-  undo_stack st0 = [] -> redo_stack st0 = [] -> EditSessions.pre_along st0 ops ->
+  WF st0 -> EditSessions.reg_ok st0 -> EditBook.rp_disjoint st0 -> EditSessionsFull.rp_decl st0 ->
+  undo_stack st0 = [] -> redo_stack st0 = [] -> EditSessionsAll.pre_along_all st0 ops ->
   forall pre post, ops = pre ++ post -> WF (run st0 pre).
-Proof. exact EditSessions.session_reachable_WF. Qed.
+Proof. exact EditSessionsAll.session_all_reachable_WF. Qed.
 
 (* ---- paint / erase strokes (Proofs/EditWFPaint.v): every ACCEPTED stroke on a well-formed state yields
         a well-formed state, with no precondition on the stroke (labels and nodes stay one-to-one: nodes that
         lose all pixels are deleted, with the bridge edge; partially overwritten ones are re-measured; the
         painted label exists with exactly its pixels), and reachability over edge / node / stroke calls.
-        op_pre_paint excludes exactly one kind of REFUSED stroke, not yet proved: a non-forced stroke with a
-        new label that overwrites a foreign node and is then refused by the nested UserAddNode (rolled back). ---- *)
+        Refused strokes included, the rolled-back one too (Proofs/EditWFPaintRollback.v): the only per-call
+        precondition left is that of UserAddNode; strokes have none. ---- *)
 Theorem C03_paint : forall st nv t idx T force a st',
   WF st -> EditBook.rp_disjoint st -> paint st nv t idx T force = Ok a st' -> WF st'.
 Proof. exact EditWFPaint.paint_WF. Qed.
 
 Theorem C03_run_paint_calls : forall ops st,
-  forallb EditWFPaint.paint_fragment ops = true -> WF st -> EditBook.rp_disjoint st ->
-  (forall pre o post, ops = pre ++ o :: post -> EditWFPaint.op_pre_paint (run st pre) o) ->
-  WF (run st ops) /\ EditBook.rp_disjoint (run st ops).
-Proof. exact EditWFPaint.run_paint_WF. Qed.
+  forallb EditWFPaint.paint_fragment ops = true -> WF st -> EditBook.rp_disjoint st -> EditSessions.reg_ok st ->
+  (forall pre o post, ops = pre ++ o :: post -> EditWFNode.op_pre (run st pre) o) ->
+  WF (run st ops) /\ EditBook.rp_disjoint (run st ops) /\ EditSessions.reg_ok (run st ops).
+Proof. exact EditWFPaintRollback.run_paint_WF_all. Qed.
+
+(* ---- the seven composite user actions this property quantifies over are, in the model, the code
+        translated on every run from the current user_actions/*.py (Gen/UserActions_gen.v, translator
+        harness/translate_user_actions.py, fail closed): the generated definitions equal the hand-written
+        ones the theorems above are about, for all arguments (UserAddNode: on states whose track lookup
+        lists only nodes, which W_book implies). ---- *)
+Theorem C03_user_actions_are_generated :
+  (forall st u v top, FT.Gen.UserActions_gen.gen_user_delete_edge st u v top = user_delete_edge st u v top) /\
+  (forall st u v force top, FT.Gen.UserActions_gen.gen_user_add_edge st u v force top = user_add_edge st u v force top) /\
+  (forall st n1 n2, FT.Gen.UserActions_gen.gen_user_swap st n1 n2 = user_swap st n1 n2) /\
+  (forall st n new, FT.Gen.UserActions_gen.gen_user_update_attrs st n new = user_update_attrs st n new) /\
+  (forall st n px top, FT.Gen.UserActions_gen.gen_user_delete_node st n px top = user_delete_node st n px top) /\
+  (forall st n a px force top, W_book st ->
+     FT.Gen.UserActions_gen.gen_user_add_node st n a px force top = user_add_node st n a px force top) /\
+  (forall st nv groups T force, FT.Gen.UserActions_gen.gen_user_update_seg st nv groups T force = user_update_seg st nv groups T force).
+Proof.
+  split; [exact FT.Proofs.UserActionsTie.gen_user_delete_edge_eq|]. split; [exact FT.Proofs.UserActionsTie.gen_user_add_edge_eq|].
+  split; [exact FT.Proofs.UserActionsTie.gen_user_swap_eq|]. split; [exact FT.Proofs.UserActionsTie.gen_user_update_attrs_eq|].
+  split; [exact FT.Proofs.UserActionsTie.gen_user_delete_node_eq|].
+  split; [intros st n a px force top WB; exact (FT.Proofs.UserActionsTie.gen_user_add_node_eq st n a px force top (FT.Proofs.UserActionsTie.W_book_book_nodes st WB))|].
+  exact FT.Proofs.UserActionsTie.gen_user_update_seg_eq.
+Qed.
 
 Example C03_nonvacuous :
   (* 6 cannot be a child of 1 (third child) but 4 -> 6 is fine; 2 -> 5 is a merge: refused (forceable), forced it cuts 3 -> 5 *)
@@ -203,3 +230,4 @@ Print Assumptions C03_run_node_calls.
 Print Assumptions C03_sessions.
 Print Assumptions C03_paint.
 Print Assumptions C03_run_paint_calls.
+Print Assumptions C03_user_actions_are_generated.
